@@ -97,19 +97,24 @@ theorem reloc_quoted (c A0 e post : List Nat) (hc : c = (A0 ++ [34]) ++ (e ++ [3
   exact hrel
 
 theorem exprs_quoted (cfg : ScanCfg R) (c A0 e post : List Nat)
-    (hc : c = (A0 ++ [34]) ++ (e ++ [34]) ++ post) (hp : plainL e) (items : List (Item R))
+    (hc : c = (A0 ++ [34]) ++ (e ++ [34]) ++ post) (items : List (Item R))
     (hs : Qentem.Expr.parseTop ({ readNum := cfg.readNum } : ScanCfg R) (e ++ [34]) 0 e.length = .ok items) :
     ∃ items', exprs cfg c [] (A0.length + 1) (A0.length + 1 + e.length) = .ok items' ∧
-      Qentem.Expr.RelItems (A0.length + 1) (e.length + 1) items items' := by
+      Qentem.Expr.RelItems (PvTop (A0.length + 1) (e.length + 1)) (A0.length + 1) (e.length + 1) items items' := by
   have hrel := reloc_quoted c A0 e post hc
-  have hno : ∀ (i x : Nat), (e ++ [34])[i]? = some x → x ≠ Qentem.Expr.cBOpen := by
-    intro i x hx
-    have hmem : x ∈ e ++ [34] := List.mem_of_getElem? hx
-    rcases List.mem_append.mp hmem with h | h
-    · exact (hp x h).1
-    · simp at h; subst h; decide
-  obtain ⟨items', h1, h2⟩ := Qentem.Expr.parseTop_reloc ({ readNum := cfg.readNum } : ScanCfg R)
-    { cfg with loopVar := loopVarPure c [] } rfl hrel hno 0 e.length (by simp) items hs
+  obtain ⟨items', h1, h2⟩ := Qentem.Expr.parseTop_relocV ({ readNum := cfg.readNum } : ScanCfg R)
+    { cfg with loopVar := loopVarPure c [] } rfl hrel (PvTop (A0.length + 1) (e.length + 1))
+    (by
+      intro off en h1 h2 h3
+      have hen : en < (e ++ [34]).length := (List.getElem?_eq_some_iff.mp h3).1
+      simp only [List.length_append, List.length_cons, List.length_nil] at hen
+      have hm := Nat.mod_le (en - (off + 5)) (2 ^ Qentem.Generated.Expr.variableLengthBits)
+      refine ⟨?_, ?_⟩
+      · simp only [Qentem.Expr.scanVar, loopVarPure, checkLoopVariable]
+        rw [show A0.length + 1 + en - (A0.length + 1 + off + 5) = en - (off + 5) by omega,
+          show A0.length + 1 + off + 5 = A0.length + 1 + (off + 5) by omega]
+      · simp only [Qentem.Expr.scanVar]; omega)
+    0 e.length (by simp) items hs
   exact ⟨items', by simpa [exprs] using h1, by simpa using h2⟩
 
 /-- `<elseif case="e" />` handled by `stepElse` -/
@@ -207,14 +212,14 @@ end
 mutual
 def BT.ok : BT → Prop
   | .segs l => ∀ s ∈ l, s.ok
-  | .ifc e body tail => plainL e ∧ (∀ x ∈ e, x ≠ 34) ∧ BTs.ok body ∧ BTail.ok tail
+  | .ifc e body tail => (∀ x ∈ e, x ≠ 34) ∧ BTs.ok body ∧ BTail.ok tail
 def BTs.ok : BTs → Prop
   | .nil => True
   | .cons b r => BT.ok b ∧ BTs.ok r
 def BTail.ok : BTail → Prop
   | .fin => True
   | .els body => BTs.ok body
-  | .elif e body tail => plainL e ∧ (∀ x ∈ e, x ≠ 34) ∧ BTs.ok body ∧ BTail.ok tail
+  | .elif e body tail => (∀ x ∈ e, x ≠ 34) ∧ BTs.ok body ∧ BTail.ok tail
 end
 
 mutual
@@ -315,7 +320,7 @@ theorem parse_bt (cfg : ScanCfg R) (c : List Nat) (hn : c.length + 16 < 42949672
     exact parseMain_segs cfg c hn stk post l pre acc fuel o m o' m' hc hok (fun s _ => Seg.scanOk_all _ s) hnext hfin
   | .ifc e body tail, stk, pre, post, acc, fuel, o, m, o', m', hc, hok, hnext, hfin => by
     simp only [BT.ok] at hok
-    obtain ⟨hpe, hq34, hbody, htail⟩ := hok
+    obtain ⟨hq34, hbody, htail⟩ := hok
     simp only [printBT] at hc hfin
     have htp := printTail_pos tail
     have hc1 : c = pre ++ (IFOPEN ++ e ++ [34, 62] ++ (printBTs body ++ printTail tail ++ post)) := by
@@ -328,7 +333,12 @@ theorem parse_bt (cfg : ScanCfg R) (c : List Nat) (hn : c.length + 16 < 42949672
     simp only [Except.ok.injEq, Prod.mk.injEq] at hnext
     obtain ⟨rfl, rfl⟩ := hnext
     obtain ⟨items0, hitems0⟩ := Qentem.Expr.parseTop_total ({ readNum := cfg.readNum } : ScanCfg R) (e ++ [34]) 0 e.length (by simp)
-    obtain ⟨items', hex, _⟩ := exprs_case cfg c pre e _ hc1 hpe items0 hitems0
+    have hcq0 : c = ((pre ++ [60, 105, 102, 32, 99, 97, 115, 101, 61]) ++ [34]) ++ (e ++ [34]) ++
+        ([62] ++ (printBTs body ++ printTail tail ++ post)) := by
+      rw [hc1]; simp [IFOPEN, List.append_assoc]
+    obtain ⟨items', hex, _⟩ := exprs_quoted cfg c (pre ++ [60, 105, 102, 32, 99, 97, 115, 101, 61]) e _ hcq0 items0 hitems0
+    have hA0 : (pre ++ [60, 105, 102, 32, 99, 97, 115, 101, 61]).length + 1 = pre.length + 10 := by simp
+    rw [hA0] at hex
     obtain ⟨o1, m1, hn1, _⟩ := next_safe_total c (pre.length + 12 + e.length) ht.len
     have hstep := stepIf_print cfg c pre e _ hc1 hq34 (by simp only [List.length_append]; omega) stk acc items' hex o1 m1 hn1
     have hl2 : (pre ++ (IFOPEN ++ e ++ [34, 62])).length = pre.length + 12 + e.length := by simp [IFOPEN]; omega
@@ -457,7 +467,7 @@ theorem parse_tail (cfg : ScanCfg R) (c : List Nat) (hn : c.length + 16 < 429496
     simp only [casesT, List.append_assoc, List.singleton_append]
   | .elif e body tail, stk, accO, done, cur, curOff, p, sub, pre, post, fuel, o, m, o', m', hc, hok, hnext, hfin => by
     simp only [BTail.ok] at hok
-    obtain ⟨hpe, hq34, hbody, htail⟩ := hok
+    obtain ⟨hq34, hbody, htail⟩ := hok
     simp only [printTail] at hc hfin
     have htp := printTail_pos tail
     have hc1 : c = pre ++ (ELIF ++ e ++ ELIFEND ++ (printBTs body ++ printTail tail ++ post)) := by
@@ -474,7 +484,7 @@ theorem parse_tail (cfg : ScanCfg R) (c : List Nat) (hn : c.length + 16 < 429496
     have hcq : c = ((pre ++ [60, 101, 108, 115, 101, 105, 102, 32, 99, 97, 115, 101, 61]) ++ [34]) ++ (e ++ [34]) ++
         ([32, 47, 62] ++ (printBTs body ++ printTail tail ++ post)) := by
       rw [hc1]; simp [ELIF, ELIFEND, List.append_assoc]
-    obtain ⟨items2, hex0, _⟩ := exprs_quoted cfg c (pre ++ [60, 101, 108, 115, 101, 105, 102, 32, 99, 97, 115, 101, 61]) e _ hcq hpe items0 hitems0
+    obtain ⟨items2, hex0, _⟩ := exprs_quoted cfg c (pre ++ [60, 101, 108, 115, 101, 105, 102, 32, 99, 97, 115, 101, 61]) e _ hcq items0 hitems0
     have hA : (pre ++ [60, 101, 108, 115, 101, 105, 102, 32, 99, 97, 115, 101, 61]).length + 1 = pre.length + 14 := by simp
     rw [hA] at hex0
     have hlt : pre.length + 18 + e.length < c.length := by
@@ -520,8 +530,9 @@ section
 variable [RealLike R]
 
 /-- the decision of a quoted case text scanned in place equals the reference `isTrue (evalText e)` -/
-theorem case_hit_quoted (cx : RCtx R) (cfg : ScanCfg R) (hrn : cfg.readNum = cx.readNum) (st : RState)
-    (A0 e post : List Nat) (hc : cx.content = (A0 ++ [34]) ++ (e ++ [34]) ++ post) (hp : plainL e) :
+theorem case_hit_quoted (cx : RCtx R) (cfg : ScanCfg R) (hg : cx.guardIndexRead = true)
+    (hrn : cfg.readNum = cx.readNum) (st : RState)
+    (A0 e post : List Nat) (hc : cx.content = (A0 ++ [34]) ++ (e ++ [34]) ++ post) (hvo : varsOk cx.readNum e 34) :
     ((itemsAt cfg cx.content (A0.length + 1) (A0.length + 1 + e.length)).isEmpty =
       (match Qentem.Expr.parseTop ({ readNum := cx.readNum } : ScanCfg R) (e ++ [34]) 0 e.length with
        | .ok l => l.isEmpty | .error _ => true)) ∧
@@ -531,7 +542,7 @@ theorem case_hit_quoted (cx : RCtx R) (cfg : ScanCfg R) (hrn : cfg.readNum = cx.
       ∃ v, evalExprs cx st (itemsAt cfg cx.content (A0.length + 1) (A0.length + 1 + e.length)) = .ok v ∧
         (truth v == some true) = (isTrue (evalText (specOf cx) [] e 34) == some true)) := by
   obtain ⟨items0, hitems0⟩ := Qentem.Expr.parseTop_total ({ readNum := cfg.readNum } : ScanCfg R) (e ++ [34]) 0 e.length (by simp)
-  obtain ⟨items', hex, hrel⟩ := exprs_quoted cfg cx.content A0 e post hc hp items0 hitems0
+  obtain ⟨items', hex, hrel⟩ := exprs_quoted cfg cx.content A0 e post hc items0 hitems0
   have hreloc := reloc_quoted cx.content A0 e post hc
   have hitems : itemsAt cfg cx.content (A0.length + 1) (A0.length + 1 + e.length) = items' := by
     simp only [itemsAt, hex]
@@ -545,21 +556,21 @@ theorem case_hit_quoted (cx : RCtx R) (cfg : ScanCfg R) (hrn : cfg.readNum = cx.
     simp only [hspec, h, if_true, isTrue]
     rfl
   · intro h
-    rw [← hemp] at h
-    simp only [h, Bool.false_eq_true, if_false] at hspec
-    have hvars : itemsVars items' = [] := (vars_reloc _).1 _ _ (Nat.le_refl _) hrel
+    have h0 := h
+    rw [← hemp] at h0
+    simp only [h0, Bool.false_eq_true, if_false] at hspec
     have hre : ∀ lk, Qentem.Expr.RelEnv (specEnvT cx e 34)
         ({ content := cx.content, lookup := lk, readNum := cx.readNum } : Env R) (A0.length + 1) :=
       fun lk => ⟨rfl, hreloc.slice⟩
     have hlen : (specEnvT cx e 34).content.length = e.length + 1 := by simp [specEnvT]
-    have hev := fun lk => Qentem.Expr.evaluateTop_reloc (hre lk) true items0 items' (by rw [hlen]; exact hrel)
-    refine ⟨Qentem.Expr.evaluateTop (specEnvT cx e 34) true items0, ?_, ?_⟩
-    · simp only [evalExprs, ← hemp, h, Bool.false_eq_true, if_false, hvars, resolveVars, bind, Except.bind,
-        (hev _).1]
-    · rw [hspec]
-      cases hv : Qentem.Expr.evaluateTop (specEnvT cx e 34) true items0 with
-      | none => rfl
-      | some v => cases v <;> rfl
+    have hev := evalExprs_reloc cx hg st (specEnvT cx e 34) (A0.length + 1) items0 items' hre (fun _ => rfl)
+      (by rw [hlen]; exact hrel) (hvo items0 hitems0)
+      (by rw [hlen, hc]; simp only [List.length_append, List.length_cons, List.length_nil]; omega) h
+    refine ⟨Qentem.Expr.evaluateTop (specEnvT cx e 34) true items0, hev.1, ?_⟩
+    rw [hspec]
+    cases hv : Qentem.Expr.evaluateTop (specEnvT cx e 34) true items0 with
+    | none => rfl
+    | some v => cases v <;> rfl
 
 
 /-! ### what the document says a block tree prints -/
@@ -587,27 +598,27 @@ def exprOk (rn : List Nat → Option (Num R)) (e : List Nat) : Prop :=
 mutual
 def BT.caseOk (rn : List Nat → Option (Num R)) : BT → Prop
   | .segs _ => True
-  | .ifc e body tail => (tail = .fin ∨ exprOk rn e) ∧ BTs.caseOk rn body ∧ BTail.caseOk rn tail
+  | .ifc e body tail => (tail = .fin ∨ exprOk rn e) ∧ varsOk rn e 34 ∧ BTs.caseOk rn body ∧ BTail.caseOk rn tail
 def BTs.caseOk (rn : List Nat → Option (Num R)) : BTs → Prop
   | .nil => True
   | .cons b r => BT.caseOk rn b ∧ BTs.caseOk rn r
 def BTail.caseOk (rn : List Nat → Option (Num R)) : BTail → Prop
   | .fin => True
   | .els body => BTs.caseOk rn body
-  | .elif e body tail => exprOk rn e ∧ BTs.caseOk rn body ∧ BTail.caseOk rn tail
+  | .elif e body tail => exprOk rn e ∧ varsOk rn e 34 ∧ BTs.caseOk rn body ∧ BTail.caseOk rn tail
 end
 
 mutual
-def BT.pathOk : BT → Prop
-  | .segs l => ∀ s ∈ l, s.pathOk
-  | .ifc _ body tail => BTs.pathOk body ∧ BTail.pathOk tail
-def BTs.pathOk : BTs → Prop
+def BT.pathOk (rn : List Nat → Option (Num R)) : BT → Prop
+  | .segs l => ∀ s ∈ l, s.pathOk rn
+  | .ifc _ body tail => BTs.pathOk rn body ∧ BTail.pathOk rn tail
+def BTs.pathOk (rn : List Nat → Option (Num R)) : BTs → Prop
   | .nil => True
-  | .cons b r => BT.pathOk b ∧ BTs.pathOk r
-def BTail.pathOk : BTail → Prop
+  | .cons b r => BT.pathOk rn b ∧ BTs.pathOk rn r
+def BTail.pathOk (rn : List Nat → Option (Num R)) : BTail → Prop
   | .fin => True
-  | .els body => BTs.pathOk body
-  | .elif _ body tail => BTs.pathOk body ∧ BTail.pathOk tail
+  | .els body => BTs.pathOk rn body
+  | .elif _ body tail => BTs.pathOk rn body ∧ BTail.pathOk rn tail
 end
 
 mutual
@@ -640,13 +651,14 @@ theorem rneedTail_pos (t : BTail) : 1 ≤ rneedTail t := by
   cases t <;> simp [rneedTail] <;> omega
 
 /-- the decision of one quoted case that is an expression -/
-theorem one_case (cx : RCtx R) (cfg : ScanCfg R) (hrn : cfg.readNum = cx.readNum) (st : RState)
-    (A0 e post : List Nat) (hc : cx.content = (A0 ++ [34]) ++ (e ++ [34]) ++ post) (hp : plainL e)
+theorem one_case (cx : RCtx R) (cfg : ScanCfg R) (hg : cx.guardIndexRead = true)
+    (hrn : cfg.readNum = cx.readNum) (st : RState)
+    (A0 e post : List Nat) (hc : cx.content = (A0 ++ [34]) ++ (e ++ [34]) ++ post) (hp : varsOk cx.readNum e 34)
     (hex : exprOk cfg.readNum e) :
     (itemsAt cfg cx.content (A0.length + 1) (A0.length + 1 + e.length)).isEmpty = false ∧
     ∃ v, evalExprs cx st (itemsAt cfg cx.content (A0.length + 1) (A0.length + 1 + e.length)) = .ok v ∧
       (truth v == some true) = hitOf cx e := by
-  obtain ⟨h1, _, h3⟩ := case_hit_quoted cx cfg hrn st A0 e post hc hp
+  obtain ⟨h1, _, h3⟩ := case_hit_quoted cx cfg hg hrn st A0 e post hc hp
   have hne : (itemsAt cfg cx.content (A0.length + 1) (A0.length + 1 + e.length)).isEmpty = false := by
     rw [h1]
     obtain ⟨items0, hitems0⟩ := Qentem.Expr.parseTop_total ({ readNum := cx.readNum } : ScanCfg R) (e ++ [34]) 0 e.length (by simp)
@@ -694,7 +706,7 @@ theorem emit_emit (st : RState) (a b : List Nat) : emit (emit st a) b = emit st 
 mutual
 theorem render_bt (cx : RCtx R) (cfg : ScanCfg R) (hg : cx.guardIndexRead = true) (hrn : cfg.readNum = cx.readNum) :
     ∀ (b : BT) (more : List (Tag R)) (endO : Nat) (post B txt : List Nat) (st : RState) (fuel : Nat),
-      cx.content = B ++ (txt ++ (printBT b ++ post)) → b.ok → b.pathOk → b.caseOk cfg.readNum → rneedBT b ≤ fuel →
+      cx.content = B ++ (txt ++ (printBT b ++ post)) → b.ok → b.pathOk cfg.readNum → b.caseOk cfg.readNum → rneedBT b ≤ fuel →
       ∃ (B2 txt2 : List Nat) (st2 : RState), cx.content = B2 ++ (txt2 ++ post) ∧
         (B2 ++ txt2).length = (B ++ txt).length + (printBT b).length ∧
         st2.out ++ txt2 = st.out ++ (txt ++ expBT cx b) ∧ st2.items = st.items ∧
@@ -709,10 +721,11 @@ theorem render_bt (cx : RCtx R) (cfg : ScanCfg R) (hg : cx.guardIndexRead = true
       render_segs_more cx cfg hg hrn more endO post l B txt st fuel hc hpath hok hf
   | .ifc e body tail, more, endO, post, B, txt, st, fuel, hc, hok, hpath, hcase, hf => by
     simp only [BT.ok] at hok
-    obtain ⟨hpe, hq34, hbody, htail⟩ := hok
+    obtain ⟨hq34, hbody, htail⟩ := hok
     simp only [BT.pathOk] at hpath
     simp only [BT.caseOk] at hcase
-    obtain ⟨hfirst, hcb, hct⟩ := hcase
+    obtain ⟨hfirst, hvo, hcb, hct⟩ := hcase
+    have hpe : varsOk cx.readNum e 34 := hrn ▸ hvo
     simp only [rneedBT] at hf
     simp only [printBT] at hc
     have htp := printTail_pos tail
@@ -722,7 +735,7 @@ theorem render_bt (cx : RCtx R) (cfg : ScanCfg R) (hg : cx.guardIndexRead = true
       rw [hc]; simp [IFOPEN, List.append_assoc]
     have hA : (B ++ txt ++ [60, 105, 102, 32, 99, 97, 115, 101, 61]).length + 1 = (B ++ txt).length + 10 := by
       simp only [List.length_append, List.length_cons, List.length_nil]
-    obtain ⟨hemp, hh1, hh2⟩ := case_hit_quoted cx cfg hrn (emit st txt) _ e _ hcq hpe
+    obtain ⟨hemp, hh1, hh2⟩ := case_hit_quoted cx cfg hg hrn (emit st txt) _ e _ hcq hpe
     rw [hA] at hemp hh1 hh2
     have hsl : slice cx.content B.length (B ++ txt).length = .ok txt := by rw [hc]; exact slice_from B txt _
     have hl2 : (B ++ txt ++ (IFOPEN ++ e ++ [34, 62])).length = (B ++ txt).length + 12 + e.length := by
@@ -746,7 +759,7 @@ theorem render_bt (cx : RCtx R) (cfg : ScanCfg R) (hg : cx.guardIndexRead = true
         have htf : tail = .fin := by
           rcases hfirst with h | h
           · exact h
-          · have := (one_case cx cfg hrn (emit st txt) _ e _ hcq hpe h).1
+          · have := (one_case cx cfg hg hrn (emit st txt) _ e _ hcq hpe h).1
             rw [hA] at this; rw [this] at hie; cases hie
         have hhit : hitOf cx e = false := hh1 hie
         simp only [expBT, hhit, Bool.false_eq_true, if_false, htf, expTail, emit_nil]
@@ -790,7 +803,7 @@ theorem render_bt (cx : RCtx R) (cfg : ScanCfg R) (hg : cx.guardIndexRead = true
     simp only [List.length_append, hlb]; omega
 theorem render_bts (cx : RCtx R) (cfg : ScanCfg R) (hg : cx.guardIndexRead = true) (hrn : cfg.readNum = cx.readNum) :
     ∀ (bs : BTs) (more : List (Tag R)) (endO : Nat) (post B txt : List Nat) (st : RState) (fuel : Nat),
-      cx.content = B ++ (txt ++ (printBTs bs ++ post)) → bs.ok → bs.pathOk → bs.caseOk cfg.readNum → rneedBTs bs ≤ fuel →
+      cx.content = B ++ (txt ++ (printBTs bs ++ post)) → bs.ok → bs.pathOk cfg.readNum → bs.caseOk cfg.readNum → rneedBTs bs ≤ fuel →
       ∃ (B2 txt2 : List Nat) (st2 : RState), cx.content = B2 ++ (txt2 ++ post) ∧
         (B2 ++ txt2).length = (B ++ txt).length + (printBTs bs).length ∧
         st2.out ++ txt2 = st.out ++ (txt ++ expBTs cx bs) ∧ st2.items = st.items ∧
@@ -817,7 +830,7 @@ theorem render_bts (cx : RCtx R) (cfg : ScanCfg R) (hg : cx.guardIndexRead = tru
       rw [show fuel + (rcostBT b + rcostBTs r) = fuel + rcostBTs r + rcostBT b by omega, g5, ← g2, h5]
 theorem render_tail (cx : RCtx R) (cfg : ScanCfg R) (hg : cx.guardIndexRead = true) (hrn : cfg.readNum = cx.readNum) :
     ∀ (t : BTail) (Pre post : List Nat) (st : RState) (fuel : Nat),
-      cx.content = Pre ++ (printTail t ++ post) → t.ok → t.pathOk → t.caseOk cfg.readNum → rneedTail t ≤ fuel →
+      cx.content = Pre ++ (printTail t ++ post) → t.ok → t.pathOk cfg.readNum → t.caseOk cfg.readNum → rneedTail t ≤ fuel →
       ifCases cx fuel (casesT cfg cx.content Pre.length t) st = .ok (emit st (expTail cx t))
   | .fin, Pre, post, st, fuel, hc, _, _, _, hf => by
     simp only [rneedTail] at hf
@@ -844,10 +857,11 @@ theorem render_tail (cx : RCtx R) (cfg : ScanCfg R) (hg : cx.guardIndexRead = tr
     rw [this]
   | .elif e body tail, Pre, post, st, fuel, hc, hok, hpath, hcase, hf => by
     simp only [BTail.ok] at hok
-    obtain ⟨hpe, hq34, hbody, htail⟩ := hok
+    obtain ⟨hq34, hbody, htail⟩ := hok
     simp only [BTail.pathOk] at hpath
     simp only [BTail.caseOk] at hcase
-    obtain ⟨hex, hcb, hct⟩ := hcase
+    obtain ⟨hex, hvo, hcb, hct⟩ := hcase
+    have hpe : varsOk cx.readNum e 34 := hrn ▸ hvo
     simp only [rneedTail] at hf
     simp only [printTail] at hc
     obtain ⟨f, rfl⟩ : ∃ f, fuel = f + 1 := ⟨fuel - 1, by omega⟩
@@ -855,7 +869,7 @@ theorem render_tail (cx : RCtx R) (cfg : ScanCfg R) (hg : cx.guardIndexRead = tr
         ([32, 47, 62] ++ (printBTs body ++ printTail tail ++ post)) := by
       rw [hc]; simp [ELIF, ELIFEND, List.append_assoc]
     have hA : (Pre ++ [60, 101, 108, 115, 101, 105, 102, 32, 99, 97, 115, 101, 61]).length + 1 = Pre.length + 14 := by simp
-    obtain ⟨hie, v, hv, hvt⟩ := one_case cx cfg hrn st _ e _ hcq hpe hex
+    obtain ⟨hie, v, hv, hvt⟩ := one_case cx cfg hg hrn st _ e _ hcq hpe hex
     rw [hA] at hie hv
     simp only [casesT]
     rw [ifCases_cons cx f _ _ _ _ _ _ v hie hv, hvt]
@@ -1003,7 +1017,7 @@ theorem parse_tree (cfg : ScanCfg R) (bs : BTs) (hok : bs.ok)
 /-- rendering the implied tags of a block tree prints the documented expansion -/
 theorem renderTop_tree [RealLike R] (cx : RCtx R) (cfg : ScanCfg R) (hg : cx.guardIndexRead = true)
     (hrn : cfg.readNum = cx.readNum) (bs : BTs) (hc : cx.content = printBTs bs)
-    (hok : bs.ok) (hpath : bs.pathOk) (hcase : bs.caseOk cfg.readNum) (fuel : Nat) (hf : rneedBTs bs ≤ fuel) :
+    (hok : bs.ok) (hpath : bs.pathOk cfg.readNum) (hcase : bs.caseOk cfg.readNum) (fuel : Nat) (hf : rneedBTs bs ≤ fuel) :
     renderTop cx (tagsBTs cfg cx.content 0 bs) (fuel + rcostBTs bs) = .ok (expBTs cx bs) := by
   have hr := render_bts cx cfg hg hrn bs [] cx.content.length [] [] [] {} fuel (by simpa using hc) hok hpath hcase hf
   simp only [List.append_nil, List.nil_append, List.length_nil, Nat.zero_add] at hr
